@@ -1,6 +1,6 @@
-(* Extraction of Model/Privacy.v (which includes Model/QnMatch.v, Spec/ReFrag.v, Spec/Glob.v):
-   ExtrOcamlBasic only; N/Z/positive/nat stay inductives. *)
+(* Extraction of Model/C13Run.v (Model/Privacy.v, Model/QnMatch.v, Spec/ReFrag.v, Spec/Glob.v, and the interpreters
+   Model/QnMatchIR.v, Model/PrivacyIR.v applied to Gen/QnMatchCode.v, Gen/PrivacyCode.v): ExtrOcamlBasic only; N/Z/positive/nat stay inductives. *)
 From Coq Require Import ExtrOcamlBasic.
-From PydoctorVerif Require Import Base.Sexp Spec.ReFrag Spec.Glob Spec.PrivacySpec Model.QnMatch Model.Privacy.
+From PydoctorVerif Require Import Base.Sexp Spec.ReFrag Spec.Glob Spec.PrivacySpec Model.QnMatch Model.Privacy Model.QnMatchIR Model.PrivacyIR Gen.QnMatchCode Gen.PrivacyCode Model.C13Run.
 Extraction Language OCaml.
-Extraction "model.ml" run.
+Extraction "model.ml" C13Run.run.
